@@ -212,6 +212,28 @@ func TestVerifC06(t *testing.T) {
 			r.EvalN(pn+"|shared-aead-concurrent", len(jobs))
 			// object lifetimes: an AEAD must keep sealing correctly after sibling AEADs / its Block were collected
 			lifetimeHistories(r, rng, pn, hk.N(4, 24), false, false, true)
+			// the caller's KEY BUFFER is reused: overwritten in place with key after key (and with an earlier key again);
+			// every cipher built from it must be the cipher of the bytes it held at that moment
+			{
+				kbuf := make([]byte, 16)
+				ks := [][]byte{rng.Bytes(16), rng.Bytes(16), rng.Bytes(16)}
+				for step := 0; step < hk.N(40, 400); step++ {
+					k := ks[rng.Intn(len(ks))]
+					copy(kbuf, k)
+					a, err := newAEAD(kbuf, 12, 16)
+					if err != nil {
+						r.Violation("cannot-construct-aead:"+pn, hk.D{"err": err.Error()})
+						continue
+					}
+					nonce, aad, pt := rng.Bytes(12), rng.Bytes(rng.Intn(20)), rng.Bytes(rng.Intn(70))
+					want := ref.NewGCM(k).Seal(nonce, pt, aad, 16)
+					if got := a.Seal(nil, nonce, pt, aad); !bytes.Equal(got, want) {
+						r.Violation("seal-differs-from-sp800-38d:"+pn+":key-buffer-reused-by-the-caller", hk.D{"key": hk.Hex(k), "nonce": hk.Hex(nonce), "aad": hk.Hex(aad), "pt": hk.Hex(pt), "got": hk.Hex(got), "want": hk.Hex(want), "step": step})
+						break
+					}
+					r.Eval(pn + "|key-buffer-reused")
+				}
+			}
 		})
 	}
 	for _, asm := range paths() {
